@@ -32,7 +32,7 @@ inductive Node where
   deriving DecidableEq, Repr
 
 inductive Errno where
-  | EEXIST | ENOENT | ENOTDIR | EISDIR | ENOTEMPTY | EINVAL | EBUSY | UNMODELLED
+  | EEXIST | ENOENT | ENOTDIR | EISDIR | ENOTEMPTY | EINVAL | EBUSY | UNMODELLED | BADNAME
   deriving DecidableEq, Repr
 
 abbrev FS := List (Path × Node)
@@ -164,6 +164,9 @@ inductive Op where
   | symlink (to p : Path)
   | rename (o n : Path)
   | removeAll (p : Path)
+  | badName (nm : Name)            -- WriteFile(Join(newDir, nm)) for a name that is not a single
+                                   -- path component: fails (EISDIR for "", ".", ".."; ENOENT/ENOTDIR
+                                   -- for "sub/x"), nothing is written
   deriving DecidableEq, Repr
 
 def Op.apply (fs : FS) : Op → Except Errno FS
@@ -176,6 +179,7 @@ def Op.apply (fs : FS) : Op → Except Errno FS
   | .symlink to p => Dir.symlink fs to p
   | .rename o n => Dir.rename fs o n
   | .removeAll p => Dir.removeAll fs p
+  | .badName _ => .error .BADNAME
 
 /-- Run operations in order; the first error aborts (Go: `return err`). -/
 def runOps (fs : FS) : List Op → FS × Option Errno
@@ -198,12 +202,37 @@ def resolveN : Nat → FS → Path → Option (Path × Node)
 /-- `stat`: follow symlinks at the final component (at most 8, Linux: 40). -/
 def resolve (fs : FS) (p : Path) : Option (Path × Node) := resolveN 8 fs p
 
+/-- The entries of the map, each key once (the binding `get` sees): what a directory walk lists.
+On the lists the operations build (no duplicate keys) this is the list itself. -/
+def entries (fs : FS) : FS :=
+  fs.foldr (fun e acc => e :: acc.filter (fun e' => decide (e'.1 ≠ e.1))) []
+
 /-- Directory listing: names directly below `d` with their nodes. -/
 def readDir (fs : FS) (d : Path) : List (Name × Node) :=
-  fs.filterMap (fun e =>
+  (entries fs).filterMap (fun e =>
     match e.1.getLast? with
     | some nm => if e.1 = d ++ [nm] then some (nm, e.2) else none
     | none => none)
+
+/-- Everything strictly below `d` in `es` must be a regular file directly in `d`. -/
+def collectFiles (d : Path) : FS → Option (List (Name × Bytes))
+  | [] => some []
+  | (p, n) :: rest =>
+    if d <+: p ∧ p ≠ d then
+      match n, p.drop d.length, collectFiles d rest with
+      | .file b, [nm], some l => some ((nm, b) :: l)
+      | _, _, _ => none
+    else collectFiles d rest
+
+/-- What a reader gets from ReadDir + ReadFile on `d`: `some files` iff `d` is a directory holding
+nothing but regular files (tied to `DirIs` by `KitProofs.Props.C18.dirListing_iff_DirIs`). -/
+def dirListing (fs : FS) (d : Path) : Option (List (Name × Bytes)) :=
+  if look fs d = some .dir then collectFiles d (entries fs) else none
+
+def lookupL (l : List (Name × Bytes)) (nm : Name) : Option Bytes :=
+  match l with
+  | [] => none
+  | (k, b) :: rest => if k = nm then some b else lookupL rest nm
 
 /-! ### Dir.Write -/
 
@@ -218,6 +247,13 @@ def target (B : Path) : Path := B ++ [.tgt]
 def targetNew (B : Path) : Path := B ++ [.tgtNew]
 def verDir (B : Path) (n : Nat) : Path := B ++ [.ver n]
 
+/-- File names `Write` is specified for: one path component. (`Join(newDir, name)` for other
+strings either fails — "", ".", "..", "sub/x" — which is what the model says for every invalid
+name, or escapes/cleans to another path — "a/../b", "../x" — which is outside the model.) -/
+def validName : Name → Bool
+  | .str s => s ≠ "" && s ≠ "." && s ≠ ".." && !(s.toList.contains '/') && !(s.toList.contains (Char.ofNat 0))
+  | _ => true
+
 inductive Step where
   | mkBase | mkNew | writeFiles | rmStaleNew | symlinkNew | renameToTarget | rmPrev
   deriving DecidableEq, Repr
@@ -227,7 +263,8 @@ inductive Step where
 def stepOps (B : Path) (prev : Option Nat) (c : Nat) (files : Files) : Step → List Op
   | .mkBase => [.mkdirAll B]
   | .mkNew => [.mkdirAll (verDir B c)]
-  | .writeFiles => files.map (fun kb => .writeFile (verDir B c ++ [kb.1]) kb.2)
+  | .writeFiles => files.map (fun kb =>
+      if validName kb.1 then .writeFile (verDir B c ++ [kb.1]) kb.2 else .badName kb.1)
   | .rmStaleNew => [.removeIfExists (targetNew B)]
   -- source: Symlink(filepath.Base(newDir), target+".new"): a link to a NAME in the link's own
   -- directory (the base); `Node.link` holds the path such a link resolves to
@@ -334,11 +371,15 @@ def runWith (steps : List Step) (B : Path) (s : St) (evs : List Ev) : St :=
 
 def run := runWith fixedSteps
 
-def init (fs0 : FS) : St := { fs := fs0 }
+/-- Start of a process on a file system `fs0` whose version directories (left by earlier
+processes) all have ids below `c0` (time moves on between processes). -/
+def initAt (fs0 : FS) (c0 : Nat) : St := { fs := fs0, clock := c0 }
+
+def init (fs0 : FS) : St := initAt fs0 0
 
 /-- Version ids present below `B`. -/
 def versionIds (fs : FS) (B : Path) : List Nat :=
-  fs.filterMap (fun e =>
+  (entries fs).filterMap (fun e =>
     match e.1.getLast? with
     | some (.ver n) => if e.1 = verDir B n then some n else none
     | _ => none)
